@@ -210,7 +210,7 @@ class C10(CodeMonitor):
 
     def __init__(self, tier):
         CodeMonitor.__init__(self, tier)
-        want = ("Pa", "F", "J", "L", "R") if tier == "quick" else None
+        want = ("Pa", "F", "L", "Ld", "R") if tier == "quick" else None
         self._strata = [
             ("LP", lambda: lp_cases(tier), n_lp_cases(tier)),
             ("AST", lambda: ast_cases(tier), n_ast_cases(tier)),
